@@ -1,7 +1,7 @@
 (* C05, triangle part - `points()` enumerates exactly what `contains()` accepts (Triangle with non-zero area).
    Statements only; proofs are in Proofs/Triangle.v.  Vocabulary: see Properties/C19.v
    (tri_ok = coordinates within +-8192, in_closed_tri, tri_fill_edges, lt_yx). *)
-From EG Require Import Base.Prelude Model.Geometry Model.Line Model.Triangle Proofs.Triangle.
+From EG Require Import Base.Prelude Model.Geometry Model.Line Model.Triangle Proofs.Geometry Proofs.Triangle.
 From Coq Require Import Sorting.Sorted.
 
 (* contains() is false for every point outside the bounding box *)
@@ -28,13 +28,16 @@ Theorem C05_tri_contains_spec : forall t p, tri_ok t -> area_doubled t <> 0 ->
   (tri_contains t p = true <-> in_closed_tri t p \/ In p (tri_fill_edges t)).
 Proof. exact tri_contains_spec. Qed.
 
-(* PARTIAL form of the subset direction (full statement: In q (tri_points t) -> tri_contains t q = true, OPEN in
-   Proofs/Triangle.v): a yielded point that lies in the closed triangle or on one of the three edge lines is accepted;
-   and every yielded point lies, in its row, between two edge pixels (C19_tri_within_one_pixel_partial).  What is
-   missing is the geometric step "between two edge pixels of a row => in the closed triangle or itself an edge pixel". *)
-Theorem C05_tri_points_in_contains_partial : forall t q, tri_ok t -> area_doubled t <> 0 ->
-  In q (tri_points t) -> in_closed_tri t q \/ In q (tri_fill_edges t) -> tri_contains t q = true.
-Proof. intros t q Hok Ha _ H. apply tri_contains_spec; assumption. Qed.
+(* subset direction: every point yielded by points() is accepted by contains() *)
+Theorem C05_tri_points_in_contains : forall t q, tri_ok t -> area_doubled t <> 0 ->
+  In q (tri_points t) -> tri_contains t q = true.
+Proof. exact points_in_contains. Qed.
+
+(* C05 for Triangle in one statement (DESIGN: X_points_spec): points() is the row-major filter of contains() over the
+   points of the bounding box - exactly the accepted points, each once, in row-major order, all inside the box *)
+Theorem C05_tri_points_spec : forall t, tri_ok t -> area_doubled t <> 0 ->
+  tri_points t = filter (tri_contains t) (points (tri_bounding_box t)).
+Proof. exact tri_points_filter_contains. Qed.
 
 (* non-vacuity: contains() over the bounding box of a triangle equals its points (checked by computation) *)
 Example C05_tri_example :
